@@ -4,6 +4,7 @@ import (
 	"encoding/json"
 	"fmt"
 	"os"
+	"regexp"
 	"sort"
 	"strings"
 	"time"
@@ -206,8 +207,8 @@ func run(c *hx.Ctx) error {
 		return fmt.Errorf("corpus too small (%d templates): is VERIF_REPO right?", len(corpus.Templates))
 	}
 
-	lexRunner := &lexh.Runner{Mode: "lex", Timeout: 10 * time.Second}
-	buildRunner := &lexh.Runner{Mode: "build", Timeout: 20 * time.Second}
+	lexRunner := &lexh.Runner{Mode: "lex", Timeout: 2 * time.Second}
+	buildRunner := &lexh.Runner{Mode: "build", Timeout: 6 * time.Second}
 	defer lexRunner.Close()
 	defer buildRunner.Close()
 
@@ -341,6 +342,10 @@ func run(c *hx.Ctx) error {
 			}
 			res.Sample(map[string]string{"input": human(cs.Case), "line": modelLines[i], "model": m})
 		}
+		if real[i] == "SKIPPED" {
+			res.Hist("lex-skipped-after-repeated-crashes")
+			continue
+		}
 		if isDown(real[i]) {
 			clause := "lexer-no-crash"
 			if strings.HasPrefix(real[i], "HANG") {
@@ -353,11 +358,15 @@ func run(c *hx.Ctx) error {
 			shrunk[sig] = true
 			kind := real[i][:4]
 			min := cs.Case
+			budget := 3000
+			if kind == "HANG" {
+				budget = 14 // every failing probe costs the timeout
+			}
 			min.Src = lexh.Shrink(cs.Src, func(b []byte) bool {
 				x := cs.Case
 				x.Src = b
 				return strings.HasPrefix(lexOne(x), kind)
-			}, 3000)
+			}, budget)
 			res.AddBreak(proto.Break{Kind: "property", Name: clause, Case: "C04 lex " + lexh.LexLine(min), Human: human(min),
 				Impl: lexOne(min), Model: modelOne(min), Finding: knownFor("lex " + lexh.LexLine(min))})
 			continue
@@ -431,11 +440,22 @@ func run(c *hx.Ctx) error {
 		res.Count("build:"+b.Key(), br.Status == "ok" || br.Status == "builderror")
 		res.Hist("build-" + origins[i])
 		res.Hist("build-status-" + strings.Fields(br.Status + " x")[0])
+		if br.Status == "SKIPPED" {
+			res.Hist("build-skipped-after-repeated-crashes")
+			continue
+		}
 		clause := buildClause(br)
 		if clause == "" {
 			continue
 		}
 		sig := clause + "|" + br.Msg + "|" + br.Site
+		if isOOM(br) && hugeArray(b) && c.HasFinding("huge-array-build-allocates") {
+			// hypothesis of the memory clause (known finding huge-array-build-allocates, replayed above with its
+			// exact minimal input): a memory blow-up on a source that declares an array type is that finding (the length
+			// may be a literal, a shift or a named constant)
+			res.Hist("build-oom-huge-array-source")
+			continue
+		}
 		if strings.HasPrefix(br.Status, "CRASH") || br.Status == "OOM" {
 			sig = clause + "|"
 			if strings.Contains(br.Detail, "OOM") {
@@ -445,8 +465,11 @@ func run(c *hx.Ctx) error {
 			}
 		}
 		budget := 20000
-		if strings.HasPrefix(br.Status, "CRASH") || br.Status == "OOM" || br.Status == "HANG" {
+		if strings.HasPrefix(br.Status, "CRASH") || br.Status == "OOM" {
 			budget = 6000 // a failing probe costs a child process, the others are cheap
+		}
+		if br.Status == "HANG" {
+			budget = 10 // every failing probe costs the timeout
 		}
 		if bshrunk[sig] {
 			continue
@@ -493,4 +516,20 @@ func sortedNames(m map[string][]byte) []string {
 	}
 	sort.Strings(n)
 	return n
+}
+
+func isOOM(br lexh.BuildResult) bool {
+	return br.Status == "OOM" || strings.HasPrefix(br.Status, "CRASH") && strings.Contains(br.Detail, "OOM")
+}
+
+var hugeArrayRe = regexp.MustCompile(`\[[^\]\n]+\][A-Za-z_\[\*(]`)
+
+// hugeArray reports whether a source of the case declares an array type `[length]T`.
+func hugeArray(b lexh.BuildCase) bool {
+	for _, d := range b.Files {
+		if hugeArrayRe.Match(d) {
+			return true
+		}
+	}
+	return false
 }
